@@ -27,6 +27,9 @@ def primaries(dt: float):
     yield "VasicekRate", lambda: VasicekRate(dt=dt)
     yield "MertonJumpStock", lambda: MertonJumpStock(dt=dt)
     yield "KouJumpStock", lambda: KouJumpStock(dt=dt)
+    yield "MertonJumpStock(jump_per_year=0)", lambda: MertonJumpStock(dt=dt, jump_per_year=0.0)        # degenerate regimes of the jump models
+    yield "KouJumpStock(jump_per_year=0)", lambda: KouJumpStock(dt=dt, jump_per_year=0.0)
+    yield "BrownianStock(sigma=0)", lambda: BrownianStock(dt=dt, sigma=0.0)
     yield "RoughBergomiStock", lambda: RoughBergomiStock(dt=dt)
     yield "LocalVolatilityStock", lambda: LocalVolatilityStock(lambda t, s: torch.full_like(s, 0.2), dt=dt)
 
